@@ -399,6 +399,10 @@ def do_replay(path):
         print(msg)
         return 2
     lake_build(["vfmodel"])
+    from props import PROPS  # cases of runner kinds are replayed by their verif-tagged test
+    for c in PROPS.get(d.get("property"), {}).get("corr", []):
+        if "runner" in c:
+            RUNNERS[c["kind"]] = c["runner"]
     lines = d["session"]
     go = run_go(d["kind"], lines)
     model = run_model(lines)
